@@ -38,15 +38,16 @@ def load_config(name, features, report, repo=None):
     return allf
 
 
-def run_property(prop, tier, repo=None, seed=0, quiet=False):
+def run_property(prop, tier, repo=None, seed=0, quiet=False, facts_by_cfg=None):
     mod = importlib.import_module("rules.props." + prop.lower())
     report = rep.Report(prop, tier, seed)
     cfgs = [("default", None)]
     if tier == "thorough":
         cfgs.append(("all-features", "all"))
-    facts_by_cfg = {}
-    for name, feat in cfgs:
-        facts_by_cfg[name] = load_config(name, feat, report, repo=repo)
+    if facts_by_cfg is None:
+        facts_by_cfg = {}
+        for name, feat in cfgs:
+            facts_by_cfg[name] = load_config(name, feat, report, repo=repo)
     ctx = Ctx(prop, tier, report, facts_by_cfg)
     for name, allf in facts_by_cfg.items():
         ctx.cfgname = name
